@@ -296,11 +296,28 @@ def tlaps_check(module, timeout=600):
     t0 = time.time()
     try:
         shutil.copy(os.path.join(SPEC_DIR, "proofs", module + ".tla"), d)
+        # tlapm starts the back-end provers (z3, zenon, isabelle) as grandchildren: own process
+        # group, killed as a whole when the proof ends or runs out of time (no orphan provers)
+        import os
+        import signal
         try:
-            p = subprocess.run(["tlapm", module + ".tla"], cwd=d, capture_output=True, text=True, timeout=timeout)
-            out = p.stdout + p.stderr
-        except (OSError, subprocess.TimeoutExpired) as e:
+            proc = subprocess.Popen(["tlapm", module + ".tla"], cwd=d, stdout=subprocess.PIPE,
+                                    stderr=subprocess.STDOUT, text=True, start_new_session=True)
+        except OSError as e:
             return {"ok": False, "obligations": 0, "proved": 0, "wall_s": time.time() - t0, "tail": repr(e)[:300]}
+        try:
+            out, _ = proc.communicate(timeout=timeout)
+        except subprocess.TimeoutExpired as e:
+            return {"ok": False, "obligations": 0, "proved": 0, "wall_s": time.time() - t0, "tail": repr(e)[:300]}
+        finally:
+            try:
+                os.killpg(proc.pid, signal.SIGKILL)
+            except OSError:
+                pass
+            try:
+                proc.wait(timeout=10)
+            except Exception:
+                pass
         m = re.search(r"All (\d+) obligations? proved", out)
         if m:
             n = int(m.group(1))
